@@ -631,6 +631,33 @@ func registerLibIntrinsics() {
 			return CStr(f(c)), true
 		}
 	}
+	I["strings.CutPrefix"] = func(in *Interp, fr *frame, args []Value) (Value, bool) {
+		r, ok := I["strings.HasPrefix"](in, fr, args)
+		if !ok {
+			return nil, false
+		}
+		s, pre := strArg(args[0]), strArg(args[1])
+		if in.branch(r, "strings.CutPrefix") {
+			return Tuple{in.strSlice(fr, s, pre.LenValue(in.tt), nil), true}, true
+		}
+		return Tuple{s, false}, true
+	}
+	I["strings.CutSuffix"] = func(in *Interp, fr *frame, args []Value) (Value, bool) {
+		r, ok := I["strings.HasSuffix"](in, fr, args)
+		if !ok {
+			return nil, false
+		}
+		s, suf := strArg(args[0]), strArg(args[1])
+		if in.branch(r, "strings.CutSuffix") {
+			cs, ok1 := s.Concrete()
+			cf, ok2 := suf.Concrete()
+			if !ok1 || !ok2 {
+				in.unsupported("strings.CutSuffix of symbolic strings")
+			}
+			return Tuple{CStr(cs[:len(cs)-len(cf)]), true}, true
+		}
+		return Tuple{s, false}, true
+	}
 	// Split on a one-byte separator: concrete bytes split where they stand, a symbolic byte
 	// forks on being the separator, a symbolic string of unknown length forks on containing
 	// the separator at all (not contained: it stays in its piece; contained: unsupported)
